@@ -24,7 +24,8 @@ import vlib
 
 AREA = "arc"
 M32 = 0xFFFFFFFF
-BITS = {"i8": 8, "u8": 8, "i16": 16, "u16": 16, "i32": 32, "u32": 32, "i64": 64, "u64": 64}
+M64 = 0xFFFFFFFFFFFFFFFF
+BITS = {"i8": 8, "u8": 8, "i16": 16, "u16": 16, "i32": 32, "u32": 32, "i64": 64, "u64": 64, "f64": 64, "f32": 32}
 ALL_OPS = ["+", "-", "*", "/", "%", "==", "!=", "<", ">", "<=", ">=", "and", "or"]
 
 
@@ -38,7 +39,7 @@ def tla_set(xs):
 
 
 def gen_cfg(types, ops=ALL_OPS, unary=("neg", "not", "cast"), stmts=(), lits=(0, 2), litmax=True,
-            wide=False, nodes=5, stack=3, locals_=1, params=2, frames=1, minnodes=0, chain=()):
+            wide=False, nodes=5, stack=3, locals_=1, params=2, frames=1, minnodes=0, chain=(), special=""):
     return """SPECIFICATION GSpec
 CONSTANTS
   Types = %s
@@ -55,9 +56,10 @@ CONSTANTS
   MaxFrames = %d
   MinNodes = %d
   ChainK = %s
+  Special = "%s"
 CHECK_DEADLOCK FALSE
 """ % (tla_set(types), tla_set(ops), tla_set(unary), tla_set(stmts), tla_set(lits),
-       "TRUE" if litmax else "FALSE", "TRUE" if wide else "FALSE", nodes, stack, locals_, params, frames, minnodes, tla_set(chain))
+       "TRUE" if litmax else "FALSE", "TRUE" if wide else "FALSE", nodes, stack, locals_, params, frames, minnodes, tla_set(chain), special)
 
 
 # ----------------------------------------------------------------------------- register model
@@ -88,11 +90,15 @@ class Trap(Exception):
 def model_expr(e, env, devs):
     k = e["k"]
     t = e["t"]
-    if k == "lit":
-        return e["v"] & M32
+    if k in ("lit", "blit"):
+        return e["v"] & (M64 if BITS[t] == 64 else M32)
+    if k == "flit":
+        return 0
     if k in ("par", "loc"):
         return env[e["n"]]
     if k == "neg":
+        if BITS[t] == 64:
+            return (-model_expr(e["e"], env, devs)) & M64
         r = (-model_expr(e["e"], env, devs)) & M32
         return r if "arith" in devs else ext(t, r)
     if k == "not":
@@ -230,6 +236,18 @@ def explain(p, args, got_o, raw):
     return None
 
 
+def unwide(o):
+    """ArcGen prints 64-bit values as {"hi": h, "lo": l} (two 32-bit halves): back to one integer (signed 64)"""
+    if isinstance(o, dict):
+        if set(o) == {"hi", "lo"}:
+            v = ((o["hi"] << 32) | (o["lo"] & M32)) & M64
+            return v - (1 << 64) if v >> 63 else v
+        return {k: unwide(v) for k, v in o.items()}
+    if isinstance(o, list):
+        return [unwide(v) for v in o]
+    return o
+
+
 # ----------------------------------------------------------------------------- features
 def walk(e, acc):
     k = e["k"]
@@ -352,6 +370,11 @@ def plans(tier, seed):
         # if / else-if chains with 1..3 `else if` clauses: every combination of returning / falling-through blocks,
         # with and without else, statements after the chain, arguments selecting every branch (chain mode)
         P.append(("chain", dict(types=["u8", "i16"], chain=(1, 2, 3)), None))
+        # 64-bit integers used directly as truth values (if / else if / bare-literal and-or operands), values
+        # that are non-zero with zero low 32 bits; locals declared in nested blocks followed by outer locals of
+        # another WASM carrier type (i32 / i64 / f64)
+        P.append(("truth", dict(types=["u8"], special="truth"), None))
+        P.append(("nest", dict(types=["u8"], special="nest"), None))
         # ... and seeded samples of longer bodies: control-flow heavy (few leaves) and mixed
         P.append(("ctl-sim", dict(types=["u8"], ops=["<", "+"], unary=(), stmts=("let", "set", "if"), nodes=22,
                                   stack=2, locals_=1, params=2, frames=2, lits=(0, 2), litmax=False, minnodes=13),
@@ -378,6 +401,8 @@ def plans(tier, seed):
             P.append(("expr8-" + t, dict(types=[t], ops=ops, unary=(), nodes=8, stack=3, lits=(2,), litmax=False,
                                          params=2), None))
         P.append(("chain", dict(types=["u8", "i8", "i16", "u16", "i32"], chain=(1, 2, 3)), None))
+        P.append(("truth", dict(types=["u8"], special="truth"), None))
+        P.append(("nest", dict(types=["u8"], special="nest"), None))
         P.append(("ctl12-u8", dict(types=["u8"], ops=["<"], unary=(), nodes=12, stack=2, stmts=("set", "if"),
                                    lits=(0,), litmax=False, params=2, locals_=1, frames=2), None))
         P.append(("ctl-sim", dict(types=["u8", "i8"], ops=["<", "+", "-"], unary=("cast",), stmts=("let", "set", "cset", "if"),
@@ -531,7 +556,7 @@ def run(ctx):
     nbatch = 0
     for name, kw, mode in pl:
         r = results[name]
-        recs = list(r.hists())
+        recs = [unwide(x) for x in r.hists()]
         if not recs:
             raise vlib.Inconclusive("generator plan %s produced no program" % name)
         recs.sort(key=lambda x: x["src"])        # TLC's print order depends on worker scheduling
@@ -646,7 +671,7 @@ def selftest(ctx):
     value was perturbed; (b) the register model without deviation agrees with TLC; (c) with the [arith] deviation it
     reproduces the real compiler's register for `a8 + b8 < i8(0)` at (127, 1)."""
     r = generate(ctx, "st", dict(types=["i8"], ops=["+", "<"], unary=("neg",), nodes=5, stack=2, lits=(2,), litmax=False), None, 2)
-    progs = sorted(r.hists(), key=lambda x: x["src"])
+    progs = sorted((unwide(x) for x in r.hists()), key=lambda x: x["src"])
     for i, p in enumerate(progs):
         p["id"], p["kind"] = i, "sem"
         p.pop("bad", None)
